@@ -322,6 +322,10 @@ def feeds_from_json(d: dict, meta: dict) -> dict:
 # --------------------------------------------------------------------------- batch worker
 
 
+# exception classes script() raises on purpose (converter.fail / unsupported construct / arity / type checks)
+DELIBERATE_REFUSALS = {"TranslationError", "ValueError", "SyntaxError", "TypeError"}
+
+
 def structural_oracle(fn, meta: dict, real_neutral, stats: Counter) -> list[str]:
     """C02's oracle on one accepted program (filled in by harness/c02.py)."""
     return []
@@ -383,6 +387,11 @@ def process_batch(task: dict) -> dict:
                 stats["refused"] += 1
                 stats["refused_" + rec.get("refusal", "?")] += 1
                 out["refusals"].append({"meta": m, "cls": rec.get("refusal"), "msg": err[m["name"]][1][:200]})
+                if task.get("structural") and rec.get("refusal") not in DELIBERATE_REFUSALS:
+                    # C02: a program is translated or REFUSED; an internal error of the converter is neither
+                    out["struct_failures"].append({"meta": m, "what": (
+                        f"script() crashes with {rec.get('refusal')} ({err[m['name']][1][:120]}) instead of translating "
+                        "the program or refusing it with TranslationError / ValueError / SyntaxError / TypeError")})
                 continue
             stats["accepted"] += 1
             stats["traces"] += 1
@@ -574,7 +583,8 @@ def main(run: core.Run) -> None:
         "inputs and attributes; onnxruntime CPU (optimisations off) is the runtime results are observed on",
         "type annotations are erased in the model; promotion of literals is CastLike to the sibling operand "
         "sharing a type variable of the operator schema (read from the installed onnx schemas)",
-        "nested function definitions (@graph) and subscripts are outside the model (subscripts: C11)",
+        "nested function definitions (@graph) and subscripts with tensor-valued indices are outside the model; for "
+        "constant subscripts the model has the emitted structure only (their meaning: C11)",
         "A-py: CPython's ast / inspect.getsource",
     ]
     audit = run.prove(PROP_MODULES)
